@@ -8,6 +8,7 @@ ApplyMakesReadable == \A e \in Entries, u \in Maps(L1) :
                          ~Clash(e.m, u) => Readable(Merge(e.m, u), u)
 ApplyLosesNothing  == \A e \in Entries, u \in Maps(L1) :
                          ~Clash(e.m, u) => Preserved(e.m, Merge(e.m, u), u)
-ApplyRaisesOnlyOnClash == \A e \in Entries, u \in Maps(L1) :
-                         Clash(e.m, u) <=> \E k \in DOMAIN u \cap DOMAIN e.m : IsNode(u[k]) /\ ~IsNode(e.m[k]) /\ DOMAIN u[k].m # {}
+(* a mapping of the update that meets a leaf takes its place *)
+ApplyReplacesLeafByMapping == \A e \in Entries, u \in Maps(L1) :
+                         \A k \in DOMAIN u \cap DOMAIN e.m : IsNode(u[k]) /\ ~IsNode(e.m[k]) => Merge(e.m, u)[k] = u[k]
 =============================================================================
